@@ -135,6 +135,11 @@ def pack_instance(rng, cls, nmax=12):
         v = v[:nmax]
         rng.shuffle(v)
         return C, v
+    if cls == "repeat_large":
+        # 12-16 items over 2-4 distinct values: bin-completion's branch bookkeeping (several queued branches, completed and pruned ones) is exercised here
+        C = rng.randint(8, 40)
+        vals = [rng.randint(1, C) for _ in range(rng.randint(2, 4))]
+        return C, [rng.choice(vals) for _ in range(rng.randint(12, 16))]
     if cls == "threshold":
         C = 6 * rng.choice([1, 2, 5, 10, 100])
         pts = [C // 2, C // 3, C // 2 + 1, max(1, C // 2 - 1), C // 3 + 1, max(1, C // 3 - 1), C, 1, C // 6 or 1, 2 * C // 3]
